@@ -39,7 +39,7 @@ def declare_record(V, i, rec, n_ref):
     v["flag"] = [V.byte(f"r{i}_flag{k}") for k in range(2)]
     v["name"] = [V.int(f"r{i}_n{k}", 33, 126) for k in range(rec["name_len"])]
     v["cigar"] = []
-    for c in range(rec["n_cigar"]):
+    for c in range(rec["n_cigar"] if not rec.get("cigar_fixed") else 0):      # cigar_fixed: every word is the literal 1M (very long CIGARs)
         b = [V.byte(f"r{i}_c{c}_{k}") for k in range(4)]
         V.assume(V.vars[f"r{i}_c{c}_0"].t % 16 <= 8)  # one of the nine operations
         v["cigar"].append(b)
@@ -59,7 +59,7 @@ def record_bytes(x, i, rec):
     out += [255, 255, 255, 255] + [255, 255, 255, 255] + le(0, 4)                # next_refID, next_pos, tlen
     out += [g(f"r{i}_n{k}") for k in range(rec["name_len"])] + [0]
     for c in range(rec["n_cigar"]):
-        out += [g(f"r{i}_c{c}_{k}") for k in range(4)]
+        out += [0x10, 0, 0, 0] if rec.get("cigar_fixed") else [g(f"r{i}_c{c}_{k}") for k in range(4)]
     out += [g(f"r{i}_s{k}") for k in range((rec["l_seq"] + 1) // 2)]
     out += [g(f"r{i}_q{k}") for k in range(rec["l_seq"])]
     out += [g(f"r{i}_t{k}") for k in range(rec["n_tag"])]
@@ -86,6 +86,8 @@ class Decode(Harness):
         ]
         # a read name near the 254-character limit (l_read_name is one unsigned byte), followed by a short record
         sets += [[R(230, 1, 1, 0), R(1, 1, 1, 0)]]
+        # a record with 16384 CIGAR operations (n_cigar_op * 4 reaches 2^16: long reads have such CIGARs), the words being the literal 1M
+        sets += [[dict(R(1, 16384, 2, 1), cigar_fixed=True), R(1, 1, 1, 0)]]
         if tier == "thorough":
             sets += [[R(219, 0, 1, 0), R(2, 1, 2, 0)], [R(254, 1, 0, 0)]]
             sets += [[R(4, 3, 5, 0)], [R(1, 1, 4, 3)], [R(2, 2, 5, 1), R(1, 0, 1, 0), R(2, 1, 4, 0)],
@@ -94,6 +96,11 @@ class Decode(Harness):
         for recs in sets:
             for n_ref in (1, 2):
                 if any(r["unmapped"] for r in recs) and n_ref == 1 and len(recs) > 1:
+                    continue
+                if any(r.get("cigar_fixed") for r in recs):         # 64 KiB of CIGAR words: whole read and interval view only
+                    if n_ref == 1:
+                        out.append(dict(recs=recs, n_ref=n_ref, chunk=None, interval=False))
+                        out.append(dict(recs=recs, n_ref=n_ref, chunk=None, interval=True))
                     continue
                 big = max(record_layout(r) + 4 for r in recs)
                 total = sum(record_layout(r) + 4 for r in recs)
@@ -156,6 +163,9 @@ class Decode(Harness):
         flag = g(f"r{i}_flag0") + 256 * g(f"r{i}_flag1")
         ops, lens = [], []
         for c in range(rec["n_cigar"]):
+            if rec.get("cigar_fixed"):
+                ops.append(0); lens.append(1)
+                continue
             w = sum(g(f"r{i}_c{c}_{k}") * 256 ** k for k in range(4))
             ops.append(w % 16)
             lens.append(w / 16 if z3.is_expr(w) else w // 16)
